@@ -63,6 +63,8 @@ func (c *C13) Run(x *engine.Ctx) *engine.Violation {
 		var r *service.Request
 		if i < 2 {
 			r = gen.Valid()
+		} else if t.Chance(1, 4) {
+			r = gen.InvalidVariantOf(w.Requests()[t.Pick(2)]) // shares hash and a root with one of the valid requests
 		} else {
 			r = pickRequest(t, gen, [6]int{3, 2, 1, 2, 0, 1})
 		}
@@ -171,8 +173,15 @@ func (c *C09) Run(x *engine.Ctx) *engine.Violation {
 	for i := 0; i < nconn; i++ {
 		cc := &service.ClientConn{Addr: service.ProverAddr, Frag: t.Draw(4), StartStep: 55 + t.Draw(60), Pipelined: t.Chance(1, 4), CutAt: -1}
 		k := 1 + t.Draw(3)
+		var lastValid *service.Request
 		for j := 0; j < k; j++ {
 			r := pickRequest(t, gen, [6]int{3, 2, 2, 5, 2, 2})
+			if lastValid != nil && t.Chance(1, 3) {
+				r = gen.InvalidVariantOf(lastValid) // same key material as an earlier valid request, invalid batch
+			}
+			if r.Doc != nil {
+				lastValid = r
+			}
 			fr := reframe(t, r, cc, j == k-1)
 			metas[r] = meta{frame: fr}
 			cc.Reqs = append(cc.Reqs, r)
@@ -257,35 +266,58 @@ func (c *C20) Run(x *engine.Ctx) *engine.Violation {
 	sim.Configure([]int{service.StratUniform, service.StratSticky, service.StratPCT, service.StratStarve})
 	w := &service.World{Sim: sim, Sys: c.sys, Cycles: 1, StopAfterBegun: -1, WaitBound: true}
 	gen := &service.Gen{T: t, Sys: c.sys}
-	n := 2 + t.Draw(6)
 	faulty := t.Chance(1, 4) // fault-free and fault-injecting configurations are separate
-	for i := 0; i < n; i++ {
-		r := pickRequest(t, gen, [6]int{2, 2, 1, 3, 1, 4})
-		cc := &service.ClientConn{Addr: service.ProverAddr, Reqs: []*service.Request{r}, Frag: t.Draw(4), StartStep: 55 + t.Draw(80), CutAt: -1}
-		if faulty && t.Chance(1, 3) {
-			cc.LeaveBeforeResponse = true
-			x.S.Count("fault:net/leave-before-response")
+	if t.Chance(1, 5) {
+		w.Cycles = 2 // a restart on the same addresses: every Run has its own registry and counts from zero
+		x.S.Count("probe:runs_with_restart")
+	}
+	for cyc := 0; cyc < w.Cycles; cyc++ {
+		n := 2 + t.Draw(6)
+		if cyc > 0 {
+			n = 1 + t.Draw(3)
 		}
-		w.AddConn(cc)
+		for i := 0; i < n; i++ {
+			r := pickRequest(t, gen, [6]int{2, 2, 1, 3, 1, 4})
+			cc := &service.ClientConn{Addr: service.ProverAddr, Reqs: []*service.Request{r}, Frag: t.Draw(4), StartStep: 55 + t.Draw(80), CutAt: -1, Cycle: cyc}
+			if faulty && t.Chance(1, 3) {
+				cc.LeaveBeforeResponse = true
+				x.S.Count("fault:net/leave-before-response")
+			}
+			w.AddConn(cc)
+		}
+		mid := 1 + t.Draw(2)
+		for i := 0; i < mid; i++ {
+			w.AddConn(&service.ClientConn{Addr: service.MetricsAddr, Reqs: []*service.Request{service.MetricsScrape()}, StartStep: 60 + t.Draw(400), CutAt: -1, Cycle: cyc})
+		}
+		w.AddConn(&service.ClientConn{Addr: service.MetricsAddr, Reqs: []*service.Request{service.MetricsScrape()}, AfterOthers: true, CutAt: -1, Cycle: cyc})
 	}
-	mid := 1 + t.Draw(2)
-	for i := 0; i < mid; i++ {
-		w.AddConn(&service.ClientConn{Addr: service.MetricsAddr, Reqs: []*service.Request{service.MetricsScrape()}, StartStep: 60 + t.Draw(400), CutAt: -1})
-	}
-	finalScrape := service.MetricsScrape()
-	w.AddConn(&service.ClientConn{Addr: service.MetricsAddr, Reqs: []*service.Request{finalScrape}, AfterOthers: true, CutAt: -1})
 	runWorld(x, sim, w, c.sys.Mode)
 	x.S.Count("runs_strategy_" + sim.StrategyName())
 	traceSample(x, sim, w, map[string]any{"scrapes": w.Scrapes})
 	if w.Stuck {
 		return engine.Violatef("C20/run-does-not-complete", "%s after %d steps", w.StuckWhy, sim.Step)
 	}
+	for cyc := 0; cyc < w.Cycles; cyc++ {
+		if v := c.judgeCycle(x, sim, w, cyc); v != nil {
+			return v
+		}
+	}
+	return nil
+}
+
+func (c *C20) judgeCycle(x *engine.Ctx, sim *service.Sim, w *service.World, cyc int) *engine.Violation {
 	// tally of responses the server sent, as seen by the clients
 	tally := map[string]int{}
 	slack := 0
 	total := 0
+	var scrapes []service.Scrape
+	for _, sc := range w.Scrapes {
+		if sc.Cycle == cyc {
+			scrapes = append(scrapes, sc)
+		}
+	}
 	for _, r := range w.Requests() {
-		if r.Metrics {
+		if r.Metrics || r.Cycle != cyc {
 			continue
 		}
 		total++
@@ -298,15 +330,18 @@ func (c *C20) Run(x *engine.Ctx) *engine.Violation {
 		}
 	}
 	for _, r := range w.Requests() {
+		if r.Cycle != cyc {
+			continue
+		}
 		if r.Metrics && r.Resp == nil {
-			return engine.Violatef("C20/metrics-endpoint-unavailable", "scrape %d got no complete response (steps %d)", r.ID, sim.Step)
+			return engine.Violatef("C20/metrics-endpoint-unavailable", "scrape %d (cycle %d) got no complete response (steps %d)", r.ID, cyc, sim.Step)
 		}
 		if r.Metrics && r.Resp.Status != 200 {
 			return engine.Violatef("C20/metrics-endpoint-unavailable", "scrape %d answered %d", r.ID, r.Resp.Status)
 		}
 	}
-	if len(w.Scrapes) == 0 {
-		return engine.Violatef("C20/metrics-endpoint-unavailable", "no scrape completed")
+	if len(scrapes) == 0 {
+		return engine.Violatef("C20/metrics-endpoint-unavailable", "no scrape completed in cycle %d", cyc)
 	}
 	keys := func(m map[string]int) string {
 		ks := make([]string, 0, len(m))
@@ -316,9 +351,9 @@ func (c *C20) Run(x *engine.Ctx) *engine.Violation {
 		sort.Strings(ks)
 		return fmt.Sprint(ks)
 	}
-	for i, sc := range w.Scrapes {
+	for i, sc := range scrapes {
 		x.S.Eval(1)
-		isFinal := i == len(w.Scrapes)-1
+		isFinal := i == len(scrapes)-1
 		if !sc.OK {
 			return engine.Violatef("C20/metrics-endpoint-unavailable", "scrape at step %d failed", sc.Step)
 		}
@@ -360,14 +395,16 @@ func (c *C20) Run(x *engine.Ctx) *engine.Violation {
 				return engine.Violatef("C20/final-total-reports-responses-never-sent", "final scrape: %s=%v but no client received such a response; tally: %s", k, v, keys(tally))
 			}
 		}
+		// the final scrape is taken once no handler task is parked any more, so every request that reached
+		// the handler has been counted, whether or not its client waited for the answer
 		if int(sum) > total || int(sum) < total-slack {
 			return engine.Violatef("C20/final-total-differs-from-responses-sent", "final scrape: totals sum to %v for %d requests (slack %d)", sum, total, slack)
 		}
 		if total > 0 && !sc.HasGauge {
 			return engine.Violatef("C20/in-flight-gauge-missing", "final scrape has no http_requests_in_flight{endpoint_pattern=\"/prove\"}")
 		}
-		if sc.InFlight != 0 && slack == 0 {
-			return engine.Violatef("C20/in-flight-gauge-not-zero-after-completion", "final scrape: in-flight gauge %v after every response arrived", sc.InFlight)
+		if sc.InFlight != 0 {
+			return engine.Violatef("C20/in-flight-gauge-not-zero-after-completion", "final scrape (cycle %d): in-flight gauge %v although every handler has finished (clients that left early: %d)", cyc, sc.InFlight, slack)
 		}
 	}
 	return nil
